@@ -12,17 +12,19 @@ LEVEL = "proof"
 STREAM = "mml.events+track.api"
 CHUNK = 250
 CASE_SECONDS = 10
-TECHNIQUE = ("Lean 4 proof (invariants over Track API call sequences, UInt16 arithmetic; reader lemmas over the line buffer) + "
+TECHNIQUE = ("Lean 4 proof (invariants over Track API call sequences, UInt16 arithmetic) + "
              "differential correspondence model<->track.cpp/mml_input.cpp/input.cpp on typed command sequences")
 LEVEL_TEXT = ("Machine-checked theorems over Lean models of Track (track.cpp), Line_Buffer (input.cpp) and MML_Input (mml_input.cpp): on_time+off_time "
               "of every added note is its duration and on_time follows the quantise / early-release rule; total track duration is conserved by every "
               "builder call (ties in their three cases, slurs, rests, echo, reverse rests subtract) under the no-16-bit-wrap hypothesis; pitch rule incl. "
-              "the 15-row key-signature table against the circle of fifths; number and duration readers on rendered text. on_time >= 1 is FALSE of the "
+              "the 15-row key-signature table against the circle of fifths. The reader layer (Line_Buffer / MML_Input) has no general theorem yet: it is carried by "
+              "the correspondence check and the spec oracle. on_time >= 1 is FALSE of the "
               "current code (Q4 c:1, D6a) and shuffle underflow breaks conservation (q5 s-30 c, D6b): both are proved as counterexample theorems and "
               "recorded as known findings. The models are tied to the code by regenerated tables and by diffing model and real code on every generated case.")
 LEVEL_NOTE = ("Trusted: Lean kernel (propext, Classical.choice, Quot.sound), the hand-written models Model/Lexer, Model/TrackBuilder, Model/Mml (agreement with the "
-              "C++ is established by differential testing, not proved), Spec/MmlMeaning (my reading of mml_ref.md), glibc strtol in the C locale. The whole-line "
-              "reader theorem is partial (per-command); whole command sequences are carried by correspondence and by the spec oracle on the implementation's events.")
+              "C++ is established by differential testing, not proved), Spec/MmlMeaning (my reading of mml_ref.md), glibc strtol in the C locale. The reader "
+              "theorems of the design (getNum_render, read_duration_render, parse_render) are kept as C05_full_statement_* definitions and are NOT proved; text -> builder calls "
+              "is carried by correspondence (all events, references, error messages and positions) and by the spec oracle on the implementation's events.")
 RULE = ("typed command sequences over the documented command set rendered canonically on track A (lengths 1..192 incl. non-divisors, dots 0..3, frames incl. "
         "1/255/256/65535, octaves, all 30 key signatures + modifier lists, Q0..9, q0..200, shuffle +-, decimal/hex/signed numbers) with the AST sent along so that "
         "the spec oracle computes the intended pitches, durations, key-on times and totals; bounded-exhaustive families (all lengths x dots, all key signatures x "
